@@ -138,18 +138,26 @@ StopUsingConnection == /\ conn /\ depth = 0
                        /\ UNCHANGED <<deque, depth, turn, turns, steps, queued, internal, open, wantPause, ipaused>>
 
 \* ---- inbound: a subchannel's application pauses / resumes / stops its transport
-SubPause(s) == /\ s \in open /\ s \notin wantPause /\ CanAct
+\* (an application may repeat itself: pausing what is paused, resuming what is not - the set of requests decides, not their count)
+SubPause(s) == /\ s \in open /\ CanAct
                /\ wantPause' = wantPause \cup {s}
                /\ ipaused' = ipaused \cup {s}
                /\ cpaused' = IF iconn /\ ipaused = {} THEN TRUE ELSE cpaused
                /\ last' = <<"SubPause", s>>
                /\ UNCHANGED <<open, iconn>> /\ InUnch
-SubResume(s) == /\ s \in open /\ s \in wantPause /\ CanAct
+SubResume(s) == /\ s \in open /\ CanAct
                 /\ wantPause' = wantPause \ {s}
                 /\ ipaused' = ipaused \ {s}
                 /\ cpaused' = IF iconn /\ ipaused # {} /\ (ipaused \ {s}) = {} THEN FALSE ELSE cpaused
                 /\ last' = <<"SubResume", s>>
                 /\ UNCHANGED <<open, iconn>> /\ InUnch
+\* stopProducing(): "no more data, please" - the connection is shared, so all it can mean is: this subchannel no longer holds it paused
+SubStop(s) == /\ s \in open /\ CanAct
+              /\ wantPause' = wantPause \ {s}
+              /\ ipaused' = ipaused \ {s}
+              /\ cpaused' = IF iconn /\ ipaused # {} /\ (ipaused \ {s}) = {} THEN FALSE ELSE cpaused
+              /\ last' = <<"SubStop", s>>
+              /\ UNCHANGED <<open, iconn>> /\ InUnch
 \* the subchannel closes (both CLOSEs seen): Inbound.subchannel_closed + Outbound.subchannel_closed.
 \* A closed subchannel's pause request dies with it: Inbound drops it from _paused_subchannels and, if it was
 \* the last one, resumes the connection.
@@ -165,7 +173,7 @@ SubClosed(s) == /\ s \in open /\ CanAct
                 /\ UNCHANGED <<iconn, paused, conn, depth, turn, turns, steps, queued, unsent, internal>>
 
 Next == TransportPause \/ TransportResume \/ LoopStep \/ UseConnection \/ StopUsingConnection \/ AppRecord
-        \/ (\E p \in Producers : Register(p) \/ Unregister(p) \/ SubPause(p) \/ SubResume(p) \/ SubClosed(p))
+        \/ (\E p \in Producers : Register(p) \/ Unregister(p) \/ SubPause(p) \/ SubResume(p) \/ SubStop(p) \/ SubClosed(p))
 Spec == Init /\ [][Next]_vars /\ WF_vars(LoopStep)
 
 \* ---- properties -----------------------------------------------------------------------------------------------
